@@ -22,6 +22,11 @@ RO = 'exactly_lib/type_val_deps/types/path/rel_opts_configuration.py'
 PSE = 'exactly_lib/execution/impl/phase_step_executors.py'
 OPE = 'exactly_lib/definitions/os_proc_env.py'
 SY = 'exactly_lib/symbol/symbol_syntax.py'
+FM = 'exactly_lib/impls/types/files_matcher/models.py'
+IS = 'exactly_lib/test_case/phases/instruction_settings.py'
+EI = 'exactly_lib/impls/instructions/multi_phase/environ/impl.py'
+AP = 'exactly_lib/processing/parse/act_phase_source_parser.py'
+SF = 'exactly_lib/test_suite/file_reading/suite_file_reading.py'
 FR = 'exactly_lib/execution/full_execution/result.py'
 EV = 'exactly_lib/processing/exit_values.py'
 SP = 'exactly_lib/test_suite/reporters/simple_progress_reporter.py'
@@ -165,6 +170,43 @@ CASES = [
     ('Timeout', 'm2-other-default-than-tabulated', 'fail', OPE, [('TIMEOUT__DEFAULT = 60', 'TIMEOUT__DEFAULT = 600')]),
     ('SymbolSyntax', 'unchanged', 'pass', SY, []),
     ('SymbolSyntax', 'm1-other-begin-delimiter', 'fail', SY, [("SYMBOL_REFERENCE_BEGIN = '@['", "SYMBOL_REFERENCE_BEGIN = '${'")]),
+    ('LineNums', 'seeded-C05-m9 (_tr clamps to FIRST_LINE_NUMBER)', 'fail', 'seeded/C05-m9/patch.diff', []),
+    ('Interval', 'seeded-C06-m10 (intersection >=)', 'fail', 'seeded/C06-m10/patch.diff', []),
+    ('FilesDepth', 'unchanged', 'pass', FM, []),
+    ('FilesDepth', 'h1-rename-parameter', 'pass', FM, [('    def _is_within_min_depth_limit(self, depth: int) -> bool:\n        return self._min_depth is None or depth >= self._min_depth',
+                                                       '    def _is_within_min_depth_limit(self, d: int) -> bool:\n        return self._min_depth is None or d >= self._min_depth')]),
+    ('FilesDepth', 'm1-min-depth-strict', 'fail', FM, [('depth >= self._min_depth', 'depth > self._min_depth')]),
+    ('FilesDepth', 'm2-at-max-depth-ge', 'fail', FM, [('depth == self._max_depth', 'depth >= self._max_depth')]),
+    ('FilesDepth', 'm3-no-max-means-at-max', 'fail', FM, [('return self._max_depth is not None and depth == self._max_depth', 'return self._max_depth is None or depth == self._max_depth')]),
+    # changes the generator loop (os.scandir, queue, prune matcher): not translated, the behavioural checks of C15 catch it
+    ('FilesDepth', 'seeded-C15-m9 (generator loop only)', 'pass', 'seeded/C15-m9/patch.diff', []),
+    ('Settings', 'unchanged', 'pass', IS, []),
+    ('Settings', 'h1-rename-parameter', 'pass', IS, [('    def set_timeout(self, seconds: Optional[int]):\n        self._timeout_in_seconds = seconds',
+                                                    '    def set_timeout(self, secs: Optional[int]):\n        self._timeout_in_seconds = secs')]),
+    ('Settings', 'm1-set_timeout-none-becomes-zero', 'fail', IS, [('        self._timeout_in_seconds = seconds', '        self._timeout_in_seconds = 0 if seconds is None else seconds')]),
+    ('Settings', 'm2-set_environ-sets-other-field', 'fail', IS, [('        self._environ = x', '        self._default_environ_getter = x')]),
+    ('Settings', 'm3-appliers-order-swapped', 'fail', EI, [
+        ('        if Phase.ACT in self._phases:\n            appliers.append(factory.applier_for_act())\n        if Phase.NON_ACT in self._phases:\n            appliers.append(factory.applier_for_non_act())',
+         '        if Phase.NON_ACT in self._phases:\n            appliers.append(factory.applier_for_non_act())\n        if Phase.ACT in self._phases:\n            appliers.append(factory.applier_for_act())')]),
+    ('Settings', 'm4-act-env-modified-outside-setup', 'fail', EI, [
+        ('    def applier_for_act(self) -> ModifierApplier:\n        return SequenceOfAppliers.empty()',
+         '    def applier_for_act(self) -> ModifierApplier:\n        return ModifierApplierForNonSetupPhase(self.instruction_settings, self.app_env_constructor)')]),
+    ('Settings', 'm5-factory-test-inverted', 'fail', EI, [('            if setup_phase_settings is None\n', '            if setup_phase_settings is not None\n')]),
+    ('Settings', 'seeded-C19-m10 (default timeout kept apart)', 'fail', 'seeded/C19-m10/patch.diff', []),
+    # changes the option parser (token parser): not translated
+    ('Settings', 'seeded-C11-m10 (parser only)', 'pass', 'seeded/C11-m10/patch.diff', []),
+    ('ActSource', 'unchanged', 'pass', AP, []),
+    ('ActSource', 'h1-rename-parameter', 'pass', AP, [("def _un_escape_at_beginning_of_line(s: str) -> str:\n    if s[:2] == '\\\\[':\n        return '[' + s[2:]\n    if s[:2] == '\\\\\\\\':\n        return '\\\\' + s[2:]\n    return s",
+                                                      "def _un_escape_at_beginning_of_line(line: str) -> str:\n    if line[:2] == '\\\\[':\n        return '[' + line[2:]\n    if line[:2] == '\\\\\\\\':\n        return '\\\\' + line[2:]\n    return line")]),
+    ('ActSource', 'm1-keeps-second-character', 'fail', AP, [("        return '[' + s[2:]", "        return '[' + s[1:]")]),
+    ('ActSource', 'm2-backslash-escape-dropped', 'fail', AP, [("    if s[:2] == '\\\\\\\\':\n        return '\\\\' + s[2:]\n", '')]),
+    ('ActSource', 'seeded-C07-m10 (function replaced)', 'refused', 'seeded/C07-m10/patch.diff', []),
+    ('SuiteConf', 'unchanged', 'pass', SF, []),
+    ('SuiteConf', 'h1-rename-locals', 'pass', SF, [('suite_elements', 'for_suite'), ('case_elements', 'for_cases')]),
+    ('SuiteConf', 'm1-lists-swapped', 'fail', SF, [('            if isinstance(element.instruction_info.instruction, ConfigurationSectionInstruction):\n                suite_elements.append(element)\n            else:\n                case_elements.append(element)',
+                                                    '            if isinstance(element.instruction_info.instruction, ConfigurationSectionInstruction):\n                case_elements.append(element)\n            else:\n                suite_elements.append(element)')]),
+    ('SuiteConf', 'm2-case-elements-prepended', 'fail', SF, [('                case_elements.append(element)', '                case_elements.insert(0, element)')]),
+    ('SuiteConf', 'seeded-C17-m9 (itertools.groupby)', 'refused', 'seeded/C17-m9/patch.diff', []),
     # changes how the set is USED, not the set: outside what this tie covers (the behavioural checks of C16 catch it)
     ('Reporters', 'seeded-C16-m1 (use site only)', 'pass', 'seeded/C16-m1/patch.diff', []),
 ]
